@@ -276,6 +276,22 @@ theorem C17_open_refines (h : List Ev) :
   rw [h1, h2, hw]
   exact ⟨rfl, rfl⟩
 
+/-- the access mode of the handle the disk/cache model hands out (`openFile`: read-only sessions are inert,
+`C17_readonly_inert`) is the mode the regenerated decision table leaves in `self.mode`, whose access flag
+`C17_mode_flags` pins: a ReadOnly session is opened `ACC_RDONLY`, every creation is an Overwrite session -/
+theorem C17_open_mode (h : List Ev) (m : Mode) (hd : Handle) (hn : (run World.init h).handle = none)
+    (ho : (step (run World.init h) (.open m)).1.handle = some hd) :
+    (∃ fl, Gen.openTable.lookup (pathState (runO Gen.cfg OWorld.init h), m) = some (.create fl hd.mode)) ∨
+    (∃ fl, Gen.openTable.lookup (pathState (runO Gen.cfg OWorld.init h), m) = some (.openExisting fl hd.mode)) := by
+  have hw := (C17_open_refines h).1
+  have := openFile_mode (run World.init h) hn m hd ho
+  simp only [C17_open_table]
+  unfold pathState
+  rw [hw]
+  rcases this with ⟨fl, hfl⟩ | ⟨fl, hfl⟩
+  · exact Or.inl ⟨fl, by rw [hfl]⟩
+  · exact Or.inr ⟨fl, by rw [hfl]⟩
+
 /-- The property with the open path inside: after *every* history, if the file is open, then `flush()` /
 `close()` / leaving the `with` block returns normally, and after any continuation that writes nothing a SIGKILL
 followed by `File.open(path, 'r' | 'a')` **is not refused** and shows exactly the state at that call. -/
